@@ -49,6 +49,17 @@ TIERS = {
 }
 
 
+def tlc_retry(*a, **kw):
+    """vlib.tlc, retried when TLC lost its (shared, sometimes cleaned) metadir or was starved by the machine."""
+    for attempt in range(3):
+        res = vlib.tlc(*a, **kw)
+        lost = any("writing the disk" in e or "No such file" in e for e in res["errors"] + res["raw_tail"][-30:])
+        if not lost:
+            return res
+        vlib.log(f"TLC lost its metadir (attempt {attempt + 1}); retrying")
+    return res
+
+
 def write_cfg(path, sc, maxlen, view, emit, inv="", deviations="{}"):
     with open(path, "w") as f:
         f.write(f"""SPECIFICATION Spec
@@ -78,7 +89,7 @@ def gen_table(ck, sc, tag):
     cfg = os.path.join(vlib.SPEC, f"MC_Jsep_table_{tag}.gen.cfg")
     write_cfg(cfg, sc, 8, "view", "EmitEdge")
     table = os.path.join(ck.dir, f"table_{tag}.ndjson")
-    res = vlib.tlc("MC_Jsep", os.path.basename(cfg), tags=("EDGE",), sinks={"EDGE": table}, timeout=300, workers=1,
+    res = tlc_retry("MC_Jsep", os.path.basename(cfg), tags=("EDGE",), sinks={"EDGE": table}, timeout=300, workers=1,
                    tag=f"MC_Jsep_table_{tag}")
     os.remove(cfg)
     vlib.tlc_ok(res, "table " + sc["label"])
@@ -91,11 +102,11 @@ def gen_programs(ck, sc, tag):
     out = os.path.join(ck.dir, f"programs_{tag}.ndjson")
     if sc["kind"] == "bounded":
         write_cfg(cfg, sc, sc["maxlen"], "progView", "NoEmit", inv="EmitProgram")
-        res = vlib.tlc("MC_Jsep", os.path.basename(cfg), tags=("PROGRAM",), sinks={"PROGRAM": out}, timeout=3000,
+        res = tlc_retry("MC_Jsep", os.path.basename(cfg), tags=("PROGRAM",), sinks={"PROGRAM": out}, timeout=3000,
                        workers=1, heap="8g", tag=f"MC_Jsep_prog_{tag}")
     else:
         write_cfg(cfg, sc, sc["maxlen"], "progView", "NoEmit", inv="EmitProgram")
-        res = vlib.tlc("MC_Jsep", os.path.basename(cfg), tags=("PROGRAM",), sinks={"PROGRAM": out}, timeout=3000,
+        res = tlc_retry("MC_Jsep", os.path.basename(cfg), tags=("PROGRAM",), sinks={"PROGRAM": out}, timeout=3000,
                        workers=1, simulate=sc["sim"], depth=sc["maxlen"] + 1, tag=f"MC_Jsep_prog_{tag}")
     os.remove(cfg)
     vlib.tlc_ok(res, sc["label"])
@@ -142,15 +153,15 @@ def run(tier):
     tool_errors = []
     for i, sc in enumerate(TIERS[tier]):
         tag = f"{tier}{i}"
-        table, tres = gen_table(ck, sc, tag)
-        programs, pres_ = gen_programs(ck, sc, tag)
-        nprog = pres_["counts"]["PROGRAM"]
-        if sc["kind"] == "bounded":
-            expect = ncalls(sc["local"], sc["remote"]) ** sc["maxlen"] * len(sc["pres"])
-            if nprog != expect:
-                raise vlib.ToolError(f"{sc['label']}: TLC printed {nprog} programs, expected {expect}")
-            exhaustive = exhaustive and pres_["finished"] and tres["finished"]
         try:
+            table, tres = gen_table(ck, sc, tag)
+            programs, pres_ = gen_programs(ck, sc, tag)
+            nprog = pres_["counts"]["PROGRAM"]
+            if sc["kind"] == "bounded":
+                expect = ncalls(sc["local"], sc["remote"]) ** sc["maxlen"] * len(sc["pres"])
+                if nprog != expect:
+                    raise vlib.ToolError(f"{sc['label']}: TLC printed {nprog} programs, expected {expect}")
+                exhaustive = exhaustive and pres_["finished"] and tres["finished"]
             summ = replay_programs(ck, table, programs, sc["label"], jobs)
             if summ["programs"] != nprog * len(sc["modes"]) * len(sc["medias"]):
                 raise vlib.ToolError(f"{sc['label']}: {summ['programs']} program runs for {nprog} programs x "
@@ -241,7 +252,7 @@ def selftest():
                       ("PanicOnMid65535", ("TableConformance",))):
         cfg = os.path.join(vlib.SPEC, "MC_Jsep_selftest.gen.cfg")
         write_cfg(cfg, sc, 8, "view", "NoEmit", deviations='{"%s"}' % dev)
-        res = vlib.tlc("MC_Jsep", os.path.basename(cfg), timeout=300, workers=2, tag="MC_Jsep_selftest")
+        res = tlc_retry("MC_Jsep", os.path.basename(cfg), timeout=300, workers=2, tag="MC_Jsep_selftest")
         os.remove(cfg)
         hit = any(p in l for p in prop for l in res["errors"] + res["raw_tail"] if "violated" in l)
         print(f"selftest: Deviations={{{dev}}} violates {'/'.join(prop)}: {hit}")
